@@ -57,7 +57,7 @@ func blockedProductions() map[string]bool {
 			continue
 		}
 		if strings.HasPrefix(name, "fn:") {
-			b[name] = true
+			b[name] = true // fn:<name>/<arity> gates the table entry; fn:<name> the direct mode
 		}
 		if s := shapeByName(name); s != nil {
 			for _, g := range s.gates {
@@ -82,6 +82,13 @@ func features(c Case) []string {
 		if c.Mode == "ill" && !identityPerm(c.Perm) {
 			set["ill-typed-history"] = true
 		}
+		walk(c.Expr, nil, func(n, _ *Node) {
+			if n.Op == "call" {
+				if sp := fnByNameArity(n.V, len(n.K)); sp != nil {
+					set[sp.key()] = true
+				}
+			}
+		})
 		for i := range shapes {
 			s := &shapes[i]
 			for _, ctx := range c.Ctxs {
